@@ -115,6 +115,30 @@ static void build(Inputs& in)
 // index of the concrete version of each input; Bayes / ColCok: -1 = option switched off
 struct Versions { int Z = 0, LHS = 0, RHS = 0, Var = 0, Bayes = 0, ColCok = 0; };
 
+// "inplace" style: the object under test always receives the addresses of these working objects, whose content is
+// overwritten with the version to install before the setter is called
+struct Work
+{
+  VectorDouble Z, PriorMean, Zp; MatrixSquareSymmetric Sigma, Sigma00, PriorCov; MatrixRectangular Sigma0; VectorInt rankColCok;
+};
+static void applySetterInPlace(KrigingCalcul& k, const std::string& s, const std::string& mode, Inputs& in, const Versions& v, Work& w)
+{
+  bool hasX = mode != "SK";
+  if (s == "setData") { w.Z = in.Z[v.Z]; k.setData(&w.Z, &in.Means); }
+  else if (s == "setLHS") { w.Sigma = in.Sigma[v.LHS]; k.setLHS(&w.Sigma, hasX ? &in.X : nullptr); }
+  else if (s == "setRHS") { w.Sigma0 = in.Sigma0[v.RHS]; k.setRHS(&w.Sigma0, hasX ? &in.X0 : nullptr); }
+  else if (s == "setVar") { w.Sigma00 = in.Sigma00[v.Var]; k.setVar(&w.Sigma00); }
+  else if (s == "setBayes" || s == "unsetBayes")
+  {
+    if (v.Bayes < 0) k.setBayes(nullptr, nullptr);
+    else { w.PriorMean = in.PriorMean[v.Bayes]; w.PriorCov = in.PriorCov[v.Bayes]; k.setBayes(&w.PriorMean, &w.PriorCov); }
+  }
+  else if (s == "setColCok" || s == "unsetColCok")
+  {
+    if (v.ColCok < 0) k.setColCokUnique(nullptr, nullptr);
+    else { w.Zp = in.Zp[v.ColCok]; w.rankColCok = in.rankColCok[v.ColCok]; k.setColCokUnique(&w.Zp, &w.rankColCok); }
+  }
+}
 static void applySetter(KrigingCalcul& k, const std::string& s, const std::string& mode, Inputs& in, const Versions& v)
 {
   bool hasX = mode != "SK";
@@ -159,9 +183,18 @@ static Value run(const Value& script)
   static bool built = false;
   if (!built) { build(in); built = true; }
   std::string mode = script.at("mode").s();
+  bool inplace = script.has("style") && script.at("style").s() == "inplace";
   KrigingCalcul k;
   Versions v;
-  setAll(k, mode, in, v);
+  Work w;
+  if (inplace)
+  {
+    for (const char* s : {"setData", "setLHS", "setRHS", "setVar"}) applySetterInPlace(k, s, mode, in, v, w);
+    if (mode == "BAYES") applySetterInPlace(k, "setBayes", mode, in, v, w);
+    if (mode == "COLCOK") applySetterInPlace(k, "setColCok", mode, in, v, w);
+  }
+  else
+    setAll(k, mode, in, v);
   Value obs = Value::array();
   int step = 0;
   for (auto& h : script.at("hist").arr)
@@ -192,7 +225,7 @@ static Value run(const Value& script)
       else if (op == "setColCok") v.ColCok = (v.ColCok == 0) ? 1 : 0;
       else if (op == "unsetBayes") v.Bayes = -1;
       else if (op == "unsetColCok") v.ColCok = -1;
-      applySetter(k, op, mode, in, v);
+      if (inplace) applySetterInPlace(k, op, mode, in, v, w); else applySetter(k, op, mode, in, v);
     }
   }
   return obs;
